@@ -493,19 +493,20 @@ func genDim(rt *rapid.T, label string, allowZero bool) float64 {
 }
 
 type OptSpec struct {
-	CBs        []int
-	Lays       []int
-	Poss       []int // Pos*
-	BKForced   bool  // allow forced / out-of-range BK layouts
-	Rts        []int
-	Thorough   bool // draw thoroughness
-	Virt       bool // draw Virt
-	Sizes      int  // 0: any incl. none/zero; 1: all nodes sized, zero allowed; 2: positive sizes; 3: uniform positive
-	IntSizes   bool // integer sizes and spacing for every positioner
-	IntForNS   bool // integer sizes and spacing when the NetworkSimplex positioner is drawn (C04's quantifier)
-	NSZero     bool // allow NodeSpacing 0
-	LSZero     bool // allow LayerSpacing 0
-	DefaultsOK bool // allow "option not passed" for spacings
+	CBs         []int
+	Lays        []int
+	Poss        []int // Pos*
+	BKForced    bool  // allow forced / out-of-range BK layouts
+	Rts         []int
+	Thorough    bool // draw thoroughness
+	ThoroughLow bool // additionally over-weight tiny iteration budgets (0..3)
+	Virt        bool // draw Virt
+	Sizes       int  // 0: any incl. none/zero; 1: all nodes sized, zero allowed; 2: positive sizes; 3: uniform positive
+	IntSizes    bool // integer sizes and spacing for every positioner
+	IntForNS    bool // integer sizes and spacing when the NetworkSimplex positioner is drawn (C04's quantifier)
+	NSZero      bool // allow NodeSpacing 0
+	LSZero      bool // allow LayerSpacing 0
+	DefaultsOK  bool // allow "option not passed" for spacings
 }
 
 var thoroughVals = []uint{28, 1, 2, 1000, 0, 5}
@@ -528,7 +529,11 @@ func genOptions(rt *rapid.T, c *Case, ids []string, sp OptSpec) {
 		}
 	}
 	c.Rt = sp.Rts[pick(rt, "rt", len(sp.Rts))]
-	if sp.Thorough && chance(rt, "thorough?", 1, 3) {
+	if sp.ThoroughLow && chance(rt, "thorough_low?", 1, 3) {
+		// iteration budgets that are actually hit: the early-exit paths of the simplex (cap reached, state left half-way)
+		// are where per-run state can leak into the next run (seeded/r3-m07)
+		c.Thorough = ptr([]uint{1, 0, 2, 3}[pick(rt, "thorough_low", 4)])
+	} else if sp.Thorough && chance(rt, "thorough?", 1, 3) {
 		c.Thorough = ptr(thoroughVals[pick(rt, "thorough", len(thoroughVals))])
 	}
 	if sp.Virt {
